@@ -6,4 +6,6 @@ export CARGO_NET_OFFLINE=true RUSTFLAGS="--cfg sentinel_verif"
 python3 gen_shadow.py
 (cd mc && CARGO_TARGET_DIR=../target-seq cargo build --release --offline --quiet)
 (cd mc && CARGO_TARGET_DIR=../target-sched cargo build --release --offline --quiet --features sched)
+# C12 is explored a second time with arithmetic overflow checks on (dev-profile behaviour)
+(cd mc && CARGO_PROFILE_RELEASE_OVERFLOW_CHECKS=true CARGO_TARGET_DIR=../target-seqoc cargo build --release --offline --quiet)
 echo "setup ok"
